@@ -508,6 +508,29 @@ func flags(repo string) []flag {
 		})
 		add("finishOrder", ok, "")
 	}
+	// cs.sendTeardownNoRst: the reset is written by the read loop's finishing block only; a failing
+	// SendMsg tears the stream down without one (teardown(false)), and nobody else calls teardown
+	{
+		fd := cs.fn("clientStream", "SendMsg")
+		ok := fd != nil
+		n := 0
+		inspect(cs.file, func(x ast.Node) bool {
+			if c, ok2 := x.(*ast.CallExpr); ok2 && str(c.Fun) == "cs.teardown" {
+				n++
+				if len(c.Args) != 1 || (str(c.Args[0]) != "false" && str(c.Args[0]) != "sendRst") {
+					ok = false
+				}
+			}
+			return true
+		})
+		inspect(fd, func(x ast.Node) bool {
+			if c, ok2 := x.(*ast.CallExpr); ok2 && str(c.Fun) == "cs.teardown" && (len(c.Args) != 1 || str(c.Args[0]) != "false") {
+				ok = false
+			}
+			return true
+		})
+		add("sendTeardownNoRst", ok && n == 3, fmt.Sprintf("teardown calls=%d", n))
+	}
 	// cc.openFailureTearsDown
 	{
 		fd := cl.fn("ClientConn", "newStream")
